@@ -79,6 +79,16 @@ def mvccBkStep (b : MvccBk) (toks : List String) : MvccBk × String :=
       ({ b with base := d, delta := argOf rest "delta" == some "1", nwriters := (natArg rest "writers").getD 0 }, out)
     else (b, out)
   | "store" :: s :: _ =>
+    if argOf toks "failopen" == some "1" then
+      -- the shard files cannot be created: StoreToDisk fails, and (like every StoreToDisk call) has released the
+      -- one reference it was given — no more
+      if !b.base.configured || b.base.down then (b, "bad-op") else
+      match s.toNat?.bind (contentOf b.base) with
+      | none => (b, "bad-op")
+      | some _ =>
+        let (d, out) := mvccStep b.base ["close", s]
+        if out == "ok" then ({ b with base := d }, "err") else (b, "bad-op")
+    else
     match storeEffects b s toks with
     | some (d, c) => ({ b with base := d, stored := some c }, "ok")
     | none => (b, "bad-op")
